@@ -17,6 +17,7 @@ import (
 	"errors"
 	"fmt"
 	"math/rand"
+	"net/http"
 	"net/http/httptest"
 	"os"
 	"path/filepath"
@@ -172,15 +173,58 @@ func TestVerifC16Wire(t *testing.T) {
 		svc := services[rng.Intn(len(services))]
 		url := ts.URL + "/discovery/" + svc
 		srv.sawSvc, srv.sawAfter, srv.sawRaw, srv.sent, srv.failWith = "", -1, "", "", nil
-		switch rng.Intn(10) {
+		switch rng.Intn(16) {
 		case 0:
 			srv.failWith = errors.Join(discovery.ErrInvalidPresentation, errors.New("scripted"))
 		case 1:
 			srv.failWith = errors.New("scripted internal error")
+		case 2:
+			srv.failWith = discovery.ErrDIDMethodsNotSupported // on its own (not joined with ErrInvalidPresentation)
+		case 3:
+			srv.failWith = errors.Join(discovery.ErrInvalidPresentation, discovery.ErrDIDMethodsNotSupported)
+		case 4:
+			srv.failWith = fmt.Errorf("scripted wrap: %w", discovery.ErrServiceNotFound)
+		case 5:
+			srv.failWith = errors.Join(discovery.ErrServiceNotFound, discovery.ErrInvalidPresentation) // the FIRST case of the switch decides
 		}
 		fail := ""
+		// which sentinels errors.Is finds in what the server returns (scripted failure, or ErrServiceNotFound for an unknown list)
+		kindOf := func(err error) string {
+			k := []byte("---")
+			if errors.Is(err, discovery.ErrInvalidPresentation) {
+				k[0] = 'i'
+			}
+			if errors.Is(err, discovery.ErrDIDMethodsNotSupported) {
+				k[1] = 'd'
+			}
+			if errors.Is(err, discovery.ErrServiceNotFound) {
+				k[2] = 'n'
+			}
+			return string(k)
+		}
+		kind := ""
 		if srv.failWith != nil {
 			fail = srv.failWith.Error()
+			kind = kindOf(srv.failWith)
+		} else if srv.lists[svc] == nil {
+			kind = kindOf(discovery.ErrServiceNotFound)
+		}
+		if rng.Intn(8) == 0 {
+			// GET written by hand: without the timestamp parameter, or with any integer (also negative)
+			q, asked := "", interface{}(nil)
+			if rng.Intn(2) == 0 {
+				v := rng.Intn(7) - 3
+				q, asked = "?timestamp="+strconv.Itoa(v), v
+			}
+			resp, err := http.Get(url + q)
+			status := 0
+			if err == nil {
+				status = resp.StatusCode
+				resp.Body.Close()
+			}
+			emit(map[string]interface{}{"op": "rawget", "service": svc, "asked": asked, "saw_service": srv.sawSvc, "saw_after": srv.sawAfter,
+				"scripted_failure": fail, "kind": kind, "known": srv.lists[svc] != nil, "status": status, "err": ""})
+			continue
 		}
 		if rng.Intn(2) == 0 {
 			nextID++
@@ -191,7 +235,7 @@ func TestVerifC16Wire(t *testing.T) {
 				es = err.Error()
 			}
 			emit(map[string]interface{}{"op": "register", "service": svc, "posted": len(vp.Raw()), "arrived": len(srv.sawRaw), "same": vp.Raw() == srv.sawRaw,
-				"saw_service": srv.sawSvc, "scripted_failure": fail, "known": srv.lists[svc] != nil, "err": es})
+				"saw_service": srv.sawSvc, "scripted_failure": fail, "kind": kind, "known": srv.lists[svc] != nil, "err": es})
 		} else {
 			asked := 0
 			if l := srv.lists[svc]; l != nil && l.lastTs > 0 && rng.Intn(4) != 0 {
@@ -206,7 +250,7 @@ func TestVerifC16Wire(t *testing.T) {
 				got = vwDigest(entries, sd, tsGot)
 			}
 			emit(map[string]interface{}{"op": "get", "service": svc, "asked": asked, "saw_service": srv.sawSvc, "saw_after": srv.sawAfter,
-				"sent": srv.sent, "got": got, "scripted_failure": fail, "known": srv.lists[svc] != nil, "err": es})
+				"sent": srv.sent, "got": got, "scripted_failure": fail, "kind": kind, "known": srv.lists[svc] != nil, "err": es})
 		}
 	}
 }
